@@ -15,6 +15,7 @@ def run(ctx):
                        "non-sharing unconstrained pods, an assignment of its tasks to nodes within truth-idle capacity and queue rules; "
                        "non-trivial = the scenario has pending pods")
     ctx.assumptions += ["work conservation is judged for jobs of whole-GPU / cpu-only pods without placement constraints; sharing pods and the "
-                        "reclaim/preempt progress clauses are not judged by this check"]
+                        "reclaim/preempt progress is judged on generated members of the unobstructed single-claimant class (profile unobs), the "
+                        "antecedent being re-derived by the spec from the scenario"]
     n = 300 if ctx.quick else 8000
-    st_cluster.run_stage(ctx, PREFIXES, [("mixed", n * 2 // 3), ("fifo", n // 6), ("slots", n // 6)], nontrivial_fn=nontrivial)
+    st_cluster.run_stage(ctx, PREFIXES, [("mixed", n // 2), ("fifo", n // 8), ("slots", n // 8), ("unobs", n // 4)], nontrivial_fn=nontrivial)
